@@ -11,6 +11,6 @@ if __name__ == "__main__":
     import vlib
     s = vlib.Snapshot()
     try:
-        print(generate_all(s))
+        generate_all(s); print("coq/gen regenerated")
     finally:
         s.cleanup()
